@@ -90,7 +90,7 @@ int main(int argc, char** argv) {
     if (failed) { fprintf(rep, "REPLAY-FAIL %s :: %s\n", fsig.c_str(), fmsg.c_str()); return 1; }
     fprintf(rep, "REPLAY-PASS\n"); return 0;
   }
-  st.rule = "(A) every state s in 1..2^31-2 (16 shards), one draw each with maxv rotating over {1,2,3,255,50000,12750000,2 seeded}; (B, thorough) every maxv in 1..12750000 for a fixed set of states; (C) seeding with {0,1,2,2^31-3,2^31-2,2^31-1,2^31,2^32,2^63}; (D) 10000th state from seed 1; non-trivial = s >= 2^16 (both halves of the 16-bit split non-zero); distinct_nontrivial is a conservative count (one representative per 2^20 consecutive states; all 2^31-2 states are visited, exact count in counters.states_visited)";
+  st.rule = "(A) every state s in 1..2^31-2 (16 shards), one draw each with maxv rotating over {1,2,3,255,50000,12750000,2 seeded}; (B, thorough) every maxv in 1..12750000 for a fixed set of states; (C) seeding with {0,1,2,2^31-3,2^31-2,2^31-1,2^31,2^32,2^63}; (D) 10000th state from seed 1; (E) for every maxv in 1..12750000 the four states whose scaled value lies within 2/(2^31-1) of an integer (where double truncation and exact division can differ); non-trivial = s >= 2^16 (both halves of the 16-bit split non-zero); distinct_nontrivial is a conservative count (one representative per 2^20 consecutive states; all 2^31-2 states are visited, exact count in counters.states_visited)";
   st.exhaustive = true;
   st.subspaces.push_back("(A) all 2^31-2 generator states: complete");
   uint64_t x = seed;
@@ -115,6 +115,31 @@ int main(int argc, char** argv) {
     st.evaluations += 12750000ULL; st.nontrivial += (s >= 65536) ? 12750000ULL : 0;
     st.counters["maxv_sweeps"] = 1;
     st.subspaces.push_back("(B) all maxv in 1..12750000 for state " + std::to_string(s) + ": complete");
+  }
+  // (E) boundary-targeted: for EVERY maxv the matrix construction can request, the states whose scaled value
+  // s'*maxv/(2^31-1) lies within 1/(2^31-1) of an integer (s'*maxv = t mod (2^31-1), t in {-1, -2, 1, 2}), where
+  // truncation of the double expression and exact integer division can part ways. s' = t * maxv^-1 (the
+  // modulus is prime), s = s' * 16807^-1.
+  if (!failed) {
+    auto inv = [](uint64_t a) { int64_t t = 0, nt = 1, r = (int64_t)M, nr = (int64_t)(a % M); while (nr) { int64_t q = r / nr; int64_t x = t - q * nt; t = nt; nt = x; x = r - q * nr; r = nr; nr = x; } if (t < 0) t += (int64_t)M; return (uint64_t)t; };
+    const uint64_t inv_a = inv(16807);
+    uint64_t targeted = 0;
+    uint64_t mv_lo = 1 + 12750000ULL * (uint64_t)worker / (uint64_t)nworkers, mv_hi = 1 + 12750000ULL * (uint64_t)(worker + 1) / (uint64_t)nworkers;
+    for (uint64_t mv = mv_lo; mv < mv_hi && !failed; mv++) {
+      uint64_t im = inv(mv);
+      for (uint64_t t : {M - 1, M - 2, (uint64_t)1, (uint64_t)2}) {
+        uint64_t s1 = (uint64_t)(((unsigned __int128)t * im) % M);
+        if (s1 == 0) continue;
+        uint64_t s0 = (uint64_t)(((unsigned __int128)s1 * inv_a) % M);
+        if (s0 == 0) continue;
+        check_draw(s0, mv); targeted++;
+        if (failed) break;
+      }
+    }
+    st.evaluations += targeted; st.nontrivial += targeted;
+    st.counters["boundary_targeted_draws"] = targeted;
+    for (uint64_t mv = mv_lo; mv < mv_hi; mv += (1u << 14)) st.distinct.insert(mix2(mv, 31));
+    st.subspaces.push_back("(E) for every maxv in 1..12750000: the four states whose scaled value is within 2/(2^31-1) of an integer: complete");
   }
   // (C), (D) in worker 0
   if (worker == 0 && !failed) {
